@@ -261,6 +261,8 @@ def summarise(spec, result, info):
     pr["actors:%d" % len(spec["actors"])] = 1
     if any(a.get("reuse") for a in spec["actors"]):
         pr["actor_reuses_own_instances"] = 1
+    if result.get("blocked_waits"):
+        pr["waits_on_simulated_locks"] = result["blocked_waits"]
     sites = result.get("switch_sites") or {}
     if any("visit_Compound" in s for s in sites):
         pr["line_switch_inside_visit_Compound"] = 1
